@@ -19,6 +19,8 @@ Expected(s, e) ==
         lists |-> Append(s.lists, NewList(e.obs.lists[Len(e.obs.lists)].its, {e.x}, {e.x}))]
   ELSE Step(s, e)
 
+(* a temporary of a method chain that nothing keeps alive any more cannot be observed: its flag is not judged *)
+Gone(o) == "gone" \in DOMAIN o /\ o.gone
 WarnClause(s, e) ==
   IF e.obs.warn # (IF s.lists[e.x].oflag /\ ~s.lists[e.x].warned THEN 1 ELSE 0)
   THEN "SM:warning-not-printed-exactly-once-on-next-use" ELSE ""
@@ -64,9 +66,9 @@ Clause(s, e) ==
   ELSE IF obs.items # exp.items THEN
        (IF op \in NonModifying THEN "SM:non-modifying-method-changed-an-item:" \o op
         ELSE "SM:editor-changed-items-other-than-as-documented:" \o op)
-  ELSE IF \E i \in DOMAIN exp.lists : exp.lists[i].flag = "yes" /\ ~obs.lists[i].ob
+  ELSE IF \E i \in DOMAIN exp.lists : exp.lists[i].flag = "yes" /\ ~obs.lists[i].ob /\ ~Gone(obs.lists[i])
        THEN "SM:must-report-obsolete-but-does-not:" \o op
-  ELSE IF \E i \in DOMAIN exp.lists : exp.lists[i].flag = "no" /\ obs.lists[i].ob
+  ELSE IF \E i \in DOMAIN exp.lists : exp.lists[i].flag = "no" /\ obs.lists[i].ob /\ ~Gone(obs.lists[i])
        THEN "SM:must-not-report-obsolete-but-does:" \o op
   ELSE WarnClause(s, e)
 
